@@ -37,13 +37,9 @@ func allCodecTypes() []codecType {
 // types that are decoded directly from bytes a peer sent: all byte strings of length <= 2 are
 // fed to these in the quick tier as well (to every type in the thorough tier)
 var wireFacing = map[string]bool{
-	"pkg/blockchain.RawBlock": true, "pkg/blockchain.Block": true, "pkg/blockchain.BlockHeader": true,
-	"pkg/blockchain.Transaction": true, "pkg/blockchain.BlockAsset": true, "pkg/blockchain.Event": true,
+	"pkg/blockchain.RawBlock": true, "pkg/blockchain.BlockHeader": true, "pkg/blockchain.Transaction": true,
 	"pkg/p2p.Request": true, "pkg/p2p.responseMsg": true, "pkg/p2p.Message": true,
-	"pkg/consensus.EventPostSingleCommits": true, "pkg/consensus/certificate.SingleCommit": true,
-	"pkg/consensus/sync.GetBlocksFromIDRequest": true, "pkg/consensus/sync.GetHighestCommonBlockRequest": true,
-	"pkg/consensus/sync.getBlocksFromIDResponse": true, "pkg/consensus/sync.getHighestCommonBlockResponse": true,
-	"pkg/trie/smt.Proof": true, "pkg/trie/rmt.Proof": true, "pkg/txpool.GetTransactionsResponse": true,
+	"pkg/consensus.EventPostSingleCommits": true,
 }
 
 func decodeTargets(ct codecType) []target {
@@ -59,7 +55,7 @@ func decodeTargets(ct codecType) []target {
 
 func codecStreams(c *mon.Ctx, h *hostile.Harness) {
 	types := allCodecTypes()
-	c.Cases("codec-types", len(types)*c.N(3, 60), func(k *mon.Case) {
+	c.Cases("codec-types", len(types)*c.N(2, 60), func(k *mon.Case) {
 		ct := types[k.Index%len(types)]
 		base, ok := hostile.RandomWire(k.R, ct.t, 0)
 		if !ok {
